@@ -212,6 +212,15 @@ func buildBatchWorld(root string, days int) *batchWorld {
 	c.Write(root)
 	// a project whose folder name differs from p2 only in letter case (its own files, another soil)
 	mk("P2", "1", "F1", "001", "sand20", "SM", "").Write(root)
+	// p7: a management-event configuration that names only two of the five event kinds (the others keep their
+	// defaults: disabled), with fertilisation, tillage and irrigation events happening in the run
+	{
+		p7 := mk("p7", "1", "F1", "001", "loam12", "SM", "")
+		p7.Till = []proj.Till{{Date: isoAdd(start, 0), Depth: 15, Typ: 1}}
+		p7.Irr = []proj.Irr{{Date: isoAdd(start, 2), MM: 12, NConc: 10}}
+		p7.Files = map[string]string{"managementout_conf.yml": "eventformats:\n  sowing:\n    eventname: sowing\n    enabled: true\n    additionalfields:\n      Crop: '%s'\n  harvest:\n    eventname: harvest\n    enabled: true\n    additionalfields:\n      Crop: '%s'\n      Residue: '%2.1f'\nseperatorrune: 32\n"}
+		p7.Write(root)
+	}
 	// p3: pedotransfer function with texture fractions that do not add up to 100 %
 	p3 := mk("p3", "1", "F1", "001", "loam12", "SM", "")
 	p3.Soil.Hor = []proj.Horizon{{Tex: "SL3", Lower: 6, BD: 3, Corg: 1, CN: 10, PS: 45, Sand: 50, Silt: 20, Clay: 10}}
@@ -296,6 +305,8 @@ func buildBatchWorld(root string, days int) *batchWorld {
 		"Cw":  "project=p2 plotNr=1 fcode=WB parameter=par poligonID=W8",
 		"Cw2": "project=p2 plotNr=1 fcode=WB parameter=par poligonID=W9",
 		"Cv":  "project=p2 plotNr=1 fcode=WB1 parameter=par poligonID=W1",
+		// a project whose management-event configuration lists only sowing and harvest
+		"Cm": "project=p7 plotNr=1 fcode=W parameter=par poligonID=M7",
 		// the same plot with groundwater from the time-series file
 		"As": "project=p1 plotNr=1 fcode=W parameter=par poligonID=S GroundWaterFrom=2",
 		// project p2 (scheduled irrigation, some events behind the end date) with automatic irrigation instead
